@@ -38,16 +38,44 @@ def run(facts, tr, rep):
     rep.saw(sb)
     rep.saw(b)
     g = graph(b)
+    # local async helpers awaited by the call future are looked through (helper extraction must not matter)
+    helpers = {}        # coroutine body -> block of b where the helper's future is awaited
+    for a in g.awaits():
+        ac = awaited_call(tr, b, a)
+        if ac is None:
+            continue
+        for d in ac.targets_def():
+            hb = facts.bodies.get(d)
+            if hb is not None and hb.crate.name == CRATE and hb.j.get("is_async"):
+                for k in facts.children.get(hb.def_, []):
+                    if k.kind == "coroutine":
+                        helpers[k.def_] = (k, a.into_bb)
+                        rep.saw(k)
+    bodies = [b] + [k for (k, _bb) in helpers.values()]
     sites = inner_calls(facts, sb)
+    for (k, _bb) in helpers.values():
+        for d in descendants(facts, k):
+            for c in graph(d).calls():
+                if c.def_ == "tower_service::Service::call" and c.self_kind in ("param", "ref_param"):
+                    sites.append((d, c))
     rep.floor("C06.inner-call-sites", len(sites), 2)
-    timeouts = [c for c in g.calls() if c.def_ and c.def_.startswith("tokio::time::timeout::timeout")]
-    spawns = [c for c in g.calls() if c.def_ and c.def_.startswith("tokio::task::spawn::spawn")]
-    sleeps = [c for c in g.calls() if c.def_ and c.def_.startswith("tokio::time::sleep::sleep")]
+
+    def all_calls(pred):
+        return [(bd, c) for bd in bodies for c in graph(bd).calls() if pred(c)]
+    timeouts = all_calls(lambda c: c.def_ and c.def_.startswith("tokio::time::timeout::timeout"))
+    spawns = all_calls(lambda c: c.def_ and c.def_.startswith("tokio::task::spawn::spawn"))
+    sleeps = all_calls(lambda c: c.def_ and c.def_.startswith("tokio::time::sleep::sleep"))
     rep.floor("C06.timeout-sites", len(timeouts), 1)
     rep.floor("C06.spawn-sites", len(spawns), 1)
 
-    def flag_edge(site_bb):
-        for e in dominating_edges(tr, b, site_bb):
+    def flag_edge(bd, site_bb):
+        r = _flag_edge(bd, site_bb)
+        if r is None and bd is not b and bd.def_ in helpers:
+            r = _flag_edge(b, helpers[bd.def_][1])
+        return r
+
+    def _flag_edge(bd, site_bb):
+        for e in dominating_edges(tr, bd, site_bb):
             if e["kind"] == "bool":
                 nd = tr.expand(e["node"], upvars=True, params=False)
                 neg = False
@@ -59,24 +87,25 @@ def run(facts, tr, rep):
                     return (e["label"] == "true") != neg
         return None
     # ---------------------------------------------------------------- MODE
-    for n, c in enumerate(timeouts):
-        fe = flag_edge(c.bb)
+    for n, (bd, c) in enumerate(timeouts):
+        fe = flag_edge(bd, c.bb)
         rep.ob("C06.MODE", skey(b, "timeout#%d" % n), fe is True, c.where(),
                "timeout() is used exactly when cancel_running_future is true" if fe is True else
                "timeout() is not confined to cancel_running_future == true (dominating flag edge: %s)" % fe)
-    for n, c in enumerate(spawns):
-        fe = flag_edge(c.bb)
+    for n, (bd, c) in enumerate(spawns):
+        fe = flag_edge(bd, c.bb)
         rep.ob("C06.MODE", skey(b, "spawn#%d" % n), fe is False, c.where(),
                "the background task is spawned exactly when cancel_running_future is false" if fe is False else
                "spawn is not confined to cancel_running_future == false (dominating flag edge: %s)" % fe)
     # duration origin helper
     def is_request_timeout(node):
-        node = tr.expand(node, upvars=True, params=False)
+        node = tr.expand(node, upvars=True, params=True)
         return bool(calls_in(tr, node, lambda x: x.name == "get_timeout")) and peel(node)[0] == "call"
     # ---------------------------------------------------------------- CANCEL
-    for n, c in enumerate(timeouts):
-        dur = tr.expand(tr.operand(b, c.args[0], c.loc))
-        fut = peel(tr.expand(tr.operand(b, c.args[1], c.loc)))
+    for n, (bd, c) in enumerate(timeouts):
+        gd_ = graph(bd)
+        dur = tr.expand(tr.operand(bd, c.args[0], c.loc))
+        fut = peel(tr.expand(tr.operand(bd, c.args[1], c.loc)))
         is_inner = fut[0] == "call" and tr.call_of(fut).def_ == "tower_service::Service::call" and tr.call_of(fut).self_kind in ("param", "ref_param")
         rep.ob("C06.CANCEL", skey(b, "timeout#%d|future" % n), is_inner, c.where(),
                "the future handed to timeout() is the wrapped service's call future (dropped with it at the deadline)" if is_inner else
@@ -85,12 +114,13 @@ def run(facts, tr, rep):
                "the deadline is timeout_source.get_timeout(&req) of this request" if is_request_timeout(dur) else
                "the deadline is %s, not get_timeout(&req)" % show(peel(tr.expand(dur, upvars=True))))
         # awaited directly
-        aw = [a for a in g.awaits() if a.poll_bb is not None and peel(tr.expand(tr.operand(b, a.awaitee, (a.into_bb, len(g.stmts(a.into_bb)))))) == ("call", b.crate.name, b.def_, c.bb)]
+        aw = [a for a in gd_.awaits() if a.poll_bb is not None and peel(tr.expand(tr.operand(bd, a.awaitee, (a.into_bb, len(gd_.stmts(a.into_bb)))))) == ("call", bd.crate.name, bd.def_, c.bb)]
         rep.ob("C06.CANCEL", skey(b, "timeout#%d|awaited" % n), len(aw) == 1, c.where(),
                "the Timeout future is awaited in place" if len(aw) == 1 else "the Timeout future is not awaited in place")
     # ---------------------------------------------------------------- NO-CANCEL
-    for n, c in enumerate(spawns):
-        fut = peel(tr.expand(tr.operand(b, c.args[0], c.loc)))
+    for n, (bd, c) in enumerate(spawns):
+        gd_ = graph(bd)
+        fut = peel(tr.expand(tr.operand(bd, c.args[0], c.loc)))
         ok_body = False
         if fut[0] == "agg":
             _b2, rv = tr.agg_of(fut)
@@ -111,20 +141,20 @@ def run(facts, tr, rep):
                "the spawned task makes the wrapped call, awaits it to completion and reports its result through the oneshot channel" if ok_body else
                "the spawned task does not make-and-await the wrapped call and report its result")
         # the JoinHandle: never aborted, never awaited
-        H = ("call", b.crate.name, b.def_, c.bb)
+        H = ("call", bd.crate.name, bd.def_, c.bb)
         misuse = []
-        for x in g.calls():
-            if x.name in ("abort", "abort_handle", "is_finished") and x.args and peel(tr.expand(tr.operand(b, x.args[0], x.loc))) == H:
+        for x in gd_.calls():
+            if x.name in ("abort", "abort_handle", "is_finished") and x.args and peel(tr.expand(tr.operand(bd, x.args[0], x.loc))) == H:
                 misuse.append(x)
-        for a in g.awaits():
-            if a.poll_bb is not None and peel(tr.expand(tr.operand(b, a.awaitee, (a.into_bb, len(g.stmts(a.into_bb)))))) == H:
+        for a in gd_.awaits():
+            if a.poll_bb is not None and peel(tr.expand(tr.operand(bd, a.awaitee, (a.into_bb, len(gd_.stmts(a.into_bb)))))) == H:
                 misuse.append(a)
         rep.ob("C06.NO-CANCEL", skey(b, "spawn#%d|handle" % n), not misuse, c.where(),
                "the task's JoinHandle is neither aborted nor awaited: the inner call keeps running after a timeout" if not misuse else
                "the task's JoinHandle is aborted/awaited: the inner call does not simply keep running in the background")
-    for n, c in enumerate(sleeps):
-        fe = flag_edge(c.bb)
-        dur = tr.expand(tr.operand(b, c.args[0], c.loc))
+    for n, (bd, c) in enumerate(sleeps):
+        fe = flag_edge(bd, c.bb)
+        dur = tr.expand(tr.operand(bd, c.args[0], c.loc))
         ok = fe is False and is_request_timeout(dur)
         rep.ob("C06.NO-CANCEL", skey(b, "sleep#%d|duration" % n), ok, c.where(),
                "the race's sleep lasts get_timeout(&req)" if ok else "the race's sleep is not get_timeout(&req) on the non-cancelling path")
@@ -151,7 +181,14 @@ def run(facts, tr, rep):
     rep.floor("C06.error-sites", nerr, 2)
     # the Option result: None only from timeout elapsed (.ok()) or the sleep branch; Some(x) from the inner result
     # ---------------------------------------------------------------- AWAITS
-    aws = g.awaits()
+    aws = []
+    for a in g.awaits():
+        ac = awaited_call(tr, b, a)
+        hk = [k for (k, bb_) in helpers.values() if bb_ == a.into_bb]
+        if hk:
+            aws += graph(hk[0]).awaits()
+        else:
+            aws.append(a)
     kinds = []
     for a in aws:
         s = a.fut_ty["s"]
